@@ -33,6 +33,9 @@ def _and(*xs):
           clause="definitional: rows a and b exchanged, same object returned, nothing else changes")
 def _row_swap(I, M, a, b):
     rd = M.reader()
+    if M.ndim == 1:  # a vector (the phase vector in stabilizer.tab_row_swap): entries a and b exchanged
+        M.assign_from(lambda i: z3.If(i == to_z3(b), rd(a), z3.If(i == to_z3(a), rd(b), rd(i))))
+        return M
     M.assign_from(lambda i, j: z3.If(i == to_z3(b), rd(a, j), z3.If(i == to_z3(a), rd(b, j), rd(i, j))))
     return M
 
